@@ -8,6 +8,8 @@ PROP_FILES = ["C14"]
 
 SPECS = {"scale": (ScaleSpec(['mapiter', 'mapstream-close-busy', 'mapstream-ferr-storm']), "harness", "runner"), "mapiter": (MapIterSpec(), "harness_parmap", "runner-parmap"), "mapstream": (MapStreamSpec(), "harness_parmap", "runner-parmap")}
 
+SPECS["scale-deep"] = SPECS["scale"]
+
 
 def run(ctx):
     proofs_ok = ctx.check_proofs(PROP_FILES, extra_targets=["theories/Conc/ParMap.vo", "theories/Conc/ParMapMatcher.vo"])
@@ -32,5 +34,13 @@ def run(ctx):
                      "MapStream; each recorded history must be accepted by the LTS model (some schedule produces it and every quiescence "
                      "point is a model state with nothing enabled) and satisfy the property's clauses evaluated directly on the history; "
                      "distinct = hash of (script, configuration); non-trivial = >= 2 source items and >= 2 consumer calls")
-    vlib.handle_broken_proof(ctx)
+    def deep():
+        # only when an obligation (e.g. the source census) no longer checks: patience mode, bigger storms
+        vlib.patience_part(ctx, MapStreamSpec(), exe, proofs_ok, tag="mapstream", ncases=16, ms=6500)
+        vlib.patience_part(ctx, MapIterSpec(), exe, proofs_ok, tag="mapiter", ncases=16, ms=6500)
+        if okS:
+            sp = ScaleSpec(['mapstream-close-busy', 'mapstream-ferr-storm'])
+            sp.force_big = True
+            vlib.seq_differential(ctx, sp, exeS, proofs_ok, tag="scale-deep")
+    vlib.handle_broken_proof(ctx, deep if ctx.tier == "quick" else None)
     ctx.finish()
